@@ -100,9 +100,17 @@ Definition site_owned (regs : list reg) (s : site) : bool :=
      hasIntent:classification.Intents  guarded by `len(intents) > 0` through the alias intents := classification.Intents *)
 Definition local_sites_justified : list string := ["HasPattern:matches"; "hasIntent:classification.Intents"]%string.
 
-Definition local_site_ok (s : site) : bool :=
+(* the exemption is for the ONE site `X[0]` (an index, not a slice) of each of the two names: any other index or kind in
+   those slices gets no exemption, and a second site of the same name makes the table fail (local_sites_exempt_once) *)
+Definition exempt_site (s : site) : bool :=
   existsb (String.eqb (s_fn s)) local_sites_justified
-  || site_ok_for s (Reg "" "" 0 (-1) 0 (s_fn s)).
+  && match s_kind s with SIndex => true | _ => false end && (s_k s =? 0)%Z.
+
+Definition local_site_ok (s : site) : bool :=
+  exempt_site s || site_ok_for s (Reg "" "" 0 (-1) 0 (s_fn s)).
+
+Definition local_sites_exempt_once (sites : list site) : bool :=
+  forallb (fun name => Nat.eqb (List.length (filter (fun s => String.eqb (s_fn s) name) sites)) 1) local_sites_justified.
 
 (* non-constant indexes into the argument slice: allowed only in functions whose loop is modelled and proved
    (Object: pairs[i], pairs[i+1] — proofs/ExEvalProofs.v object_pairs_ok) *)
